@@ -333,6 +333,44 @@ theorem lloyd_step_is_mean_of_assigned (rd : List α → List α → α) (cs xs 
 example : lloydStep (α := Rat) sqL2 [[0], [1], [9]] [[0], [10]] = [[1 / 3], [19 / 2]] := by
   decide +kernel
 
+/-- **what a budget of `m` iterations returns**: the `j`-th iterate of the Lloyd step from the initial
+matrix for some `1 ≤ j ≤ m`; the loop stops before the budget is used up only because the convergence
+test held at that iteration, and it held at no earlier one.  (The counter `n_iter` starts at zero for
+every restart: `runOnce` calls `fitLoop` with the full budget.) -/
+theorem fit_loop_is_iterate (rd : List α → List α → α) (conv : List (List α) → List (List α) → Bool)
+    (xs : List (List α)) (m : Nat) (cs : List (List α)) (hm : 1 ≤ m) :
+    ∃ j, 1 ≤ j ∧ j ≤ m ∧ fitLoop rd conv xs m cs = Nat.iterate (lloydStep rd xs) j cs ∧
+      (j < m → conv (Nat.iterate (lloydStep rd xs) (j - 1) cs)
+        (Nat.iterate (lloydStep rd xs) j cs) = true) ∧
+      ∀ i, i + 1 < j → conv (Nat.iterate (lloydStep rd xs) i cs)
+        (Nat.iterate (lloydStep rd xs) (i + 1) cs) = false := by
+  induction m generalizing cs with
+  | zero => omega
+  | succ f ih =>
+    by_cases hc : conv cs (lloydStep rd xs cs) = true
+    · refine ⟨1, le_refl _, by omega, ?_, fun _ => hc, fun i hi => by omega⟩
+      rw [fitLoop_conv _ _ _ _ _ hc]; rfl
+    · have hc' : conv cs (lloydStep rd xs cs) = false := by simpa using hc
+      cases f with
+      | zero =>
+        refine ⟨1, le_refl _, le_refl _, ?_, fun h => by omega, fun i hi => by omega⟩
+        rw [fitLoop_one]; rfl
+      | succ g =>
+        obtain ⟨j, h1, h2, e, hs, hn⟩ := ih (lloydStep rd xs cs) (by omega)
+        refine ⟨j + 1, by omega, by omega, ?_, ?_, ?_⟩
+        · rw [fitLoop_nconv rd conv xs g cs hc', e]; rfl
+        · intro hlt
+          have := hs (by omega)
+          obtain ⟨j', rfl⟩ : ∃ j', j = j' + 1 := ⟨j - 1, by omega⟩
+          simpa [Nat.iterate] using this
+        · intro i hi
+          cases i with
+          | zero => exact hc'
+          | succ i' => exact hn i' (by omega)
+
+example : fitLoop (α := Rat) sqL2 (fun a b => a == b) [[0], [2]] 5 [[1]] =
+    Nat.iterate (lloydStep sqL2 [[0], [2]]) 1 [[1]] := by decide +kernel
+
 /-- **`fit` returns a model** whenever there is at least one restart (`n_runs ≥ 1`) and every
 inertia is below `+∞` (always so over an ordered field; in IEEE arithmetic it fails exactly when the
 summed distances overflow — `Err(InertiaError)`). -/
